@@ -123,7 +123,7 @@ theorem paaLoop_safe : ∀ (l : List (Res Bytes)) (acc : List Bytes), (∀ r ∈
           · exact CSafe.err (fun _ he => by cases he)
           · exact paaLoop_safe rest _ (fun r' hr' => h r' (by simp [hr']))
 
-theorem parseProductIds_safe (s : Bytes) (hs : s.length + 1 < USIZE) : CSafe (parseProductIds s) := by
+theorem parseProductIds_safe (s : Bytes) (hs : s.length < I32LIM) : CSafe (parseProductIds s) := by
   unfold parseProductIds
   refine CSafe.bind (ofRes_safe (findCtx_np s 2 hs)) (fun e he => ?_)
   have hel := findCtx_len (ofRes_ok he)
@@ -134,7 +134,7 @@ theorem parseProductIds_safe (s : Bytes) (hs : s.length + 1 < USIZE) : CSafe (pa
   · exact CSafe.err (fun _ he => by cases he)
   · exact CSafe.pure _
 
-theorem parseCertificateId_safe (s : Bytes) (hs : s.length + 1 < USIZE) : CSafe (parseCertificateId s) := by
+theorem parseCertificateId_safe (s : Bytes) (hs : s.length < I32LIM) : CSafe (parseCertificateId s) := by
   unfold parseCertificateId
   refine CSafe.bind (ofRes_safe (findCtx_np s 4 hs)) (fun e _ => ?_)
   refine CSafe.bind (ofRes_safe (utf8Of_np e)) (fun str _ => ?_)
@@ -142,7 +142,7 @@ theorem parseCertificateId_safe (s : Bytes) (hs : s.length + 1 < USIZE) : CSafe 
   · exact CSafe.err (fun _ he => by cases he)
   · exact CSafe.pure _
 
-theorem parseDacOrigin_safe (s : Bytes) (hs : s.length + 1 < USIZE) : CSafe (parseDacOrigin s) := by
+theorem parseDacOrigin_safe (s : Bytes) (hs : s.length < I32LIM) : CSafe (parseDacOrigin s) := by
   unfold parseDacOrigin
   refine CSafe.bind (ofRes_safe (findCtx_np s 9 hs)) (fun v _ => ?_)
   refine CSafe.bind (ofRes_safe (findCtx_np s 10 hs)) (fun p _ => ?_)
@@ -154,7 +154,7 @@ theorem parseDacOrigin_safe (s : Bytes) (hs : s.length + 1 < USIZE) : CSafe (par
       exact CSafe.pure _
     · exact CSafe.pure _
 
-theorem parseAuthorizedPaa_safe (s : Bytes) (hs : s.length + 1 < USIZE) : CSafe (parseAuthorizedPaa s) := by
+theorem parseAuthorizedPaa_safe (s : Bytes) (hs : s.length < I32LIM) : CSafe (parseAuthorizedPaa s) := by
   unfold parseAuthorizedPaa
   refine CSafe.bind (ofRes_safe (findCtx_np s 11 hs)) (fun e he => ?_)
   have hel := findCtx_len (ofRes_ok he)
@@ -164,18 +164,19 @@ theorem parseAuthorizedPaa_safe (s : Bytes) (hs : s.length + 1 < USIZE) : CSafe 
     exact paaLoop_safe _ _ (elements_item_np seq (by omega))
   · exact CSafe.pure _
 
-theorem uintAt_safe {rd : Bytes → Res Nat} (hrd : ∀ e, NP (rd e)) (s : Bytes) (tag : Nat) (hs : s.length + 1 < USIZE) :
+theorem uintAt_safe {rd : Bytes → Res Nat} (hrd : ∀ e, NP (rd e)) (s : Bytes) (tag : Nat) (hs : s.length < I32LIM) :
     CSafe (uintAt rd s tag) := by
   unfold uintAt
   refine CSafe.bind (ofRes_safe (findCtx_np s tag hs)) (fun e _ => ?_)
   exact ofRes_safe (hrd e)
 
-/-- **`CertificationElements::decode` never panics**, whatever the content (every Rust slice: length + 1 < 2^64) -/
-theorem decode_safe (content : Bytes) (h : content.length + 1 < USIZE) : CSafe (decode content) := by
+/-- **`CertificationElements::decode` never panics**, whatever the content below 2 GiB (`length < 2^31`: the TLV container
+walk counts nesting in an `i32`, see C16 `levelStep`; a CD is a few hundred bytes) -/
+theorem decode_safe (content : Bytes) (h : content.length < I32LIM) : CSafe (decode content) := by
   unfold decode
   refine CSafe.bind (ofRes_safe (structOf_np content)) (fun s hs => ?_)
   have hsl := structOf_len (ofRes_ok hs)
-  have hs' : s.length + 1 < USIZE := by omega
+  have hs' : s.length < I32LIM := by omega
   refine CSafe.bind (uintAt_safe u16_np s 0 hs') (fun fv _ => ?_)
   split
   · exact CSafe.err (fun _ he => by cases he)
@@ -448,6 +449,8 @@ theorem leaves_depth (l : List Value) (h : ∀ v ∈ l, ∃ t p, v = .leaf t p) 
   ofList_depth_bound l 1 (fun v hv => by obtain ⟨t, p, rfl⟩ := h v hv; simp [Value.depth])
 
 theorem three_lt_usize : 3 < USIZE := by decide
+/-- the container walk counts nesting in an `i32` (C16): depth bounds are stated against `i32::MAX + 1` -/
+theorem three_lt_i32lim : 3 < I32LIM := by unfold I32LIM; omega
 
 /-- the nine mandatory fields -/
 def fixedFields (c : Elements) : List Value :=
@@ -539,9 +542,9 @@ theorem decode_encode (c : Elements) (h : c.Legal) : decode (encodeElements c) =
     rcases hv with hv | hv
     · exact hfo v hv
     · exact hoo v hv
-  have hdep : (Values.ofList (fieldList c)).depth + 1 < USIZE := by
+  have hdep : (Values.ofList (fieldList c)).depth + 1 < I32LIM := by
     have := ofList_depth_bound (fieldList c) 2 (fun v hv => (hall v hv).2)
-    have := three_lt_usize
+    have := three_lt_i32lim
     omega
   have hfind : ∀ tag, findCtx (encodes (Values.ofList (fieldList c)) ++ [endByte]) tag
       = .ok (suffixAt (fieldList c) tag []) := fun tag => findCtx_fields _ tag [] (fun v hv => (hall v hv).1) hdep
@@ -618,7 +621,7 @@ theorem decode_encode (c : Elements) (h : c.Legal) : decode (encodeElements c) =
     have he := enter_cont .array (.ctx 2) (Values.ofList (pidValues c.productIds))
     simp only [TlvSchema.enter] at he
     simp only [ofRes, Bind.bind, Except.bind, he]
-    rw [elements_encodes _ _ (pidValues_wf _ hpr) (by have := pidValues_depth c.productIds; have := three_lt_usize; omega),
+    rw [elements_encodes _ _ (pidValues_wf _ hpr) (by have := pidValues_depth c.productIds; have := three_lt_i32lim; omega),
       show pidLoop _ [] = .ok c.productIds from by simpa using pidLoop_children c.productIds [] _ hpr (by simpa using hp2)]
     simp only
     split
@@ -685,7 +688,7 @@ theorem decode_encode (c : Elements) (h : c.Legal) : decode (encodeElements c) =
       have hne : (encode (.cont (.ctx 11) .array (Values.ofList (paaValues c.authorizedPaa))) ++ (encodes .nil ++ [endByte])).isEmpty = false := by
         simp [encode, header]
       simp only [ofRes, Bind.bind, Except.bind, e11, hne, Bool.not_false, if_true, he]
-      rw [elements_encodes _ _ (paaValues_wf _ hpa2) (by have := paaValues_depth c.authorizedPaa; have := three_lt_usize; omega),
+      rw [elements_encodes _ _ (paaValues_wf _ hpa2) (by have := paaValues_depth c.authorizedPaa; have := three_lt_i32lim; omega),
         show paaLoop _ [] = .ok c.authorizedPaa from by simpa using paaLoop_children c.authorizedPaa [] _ hpa2 (by simpa using hpa1)]
   unfold decode
   rw [structOf_encode]
